@@ -567,7 +567,7 @@ def run_dora_requests(ctx, exe, ids, reqs, singles):
     byidx = {r.idx: r for r in reqs}
     refused_cls = {}
     state = {"refusals": 0}
-    budget = int(ctx.opts.get("dora_refusals", ctx.pick(300, 1200)))
+    budget = int(ctx.opts.get("dora_refusals", ctx.pick(200, 1200)))
     per_class = int(ctx.opts.get("dora_refusals_per_class", ctx.pick(1, 2)))
 
     def cls(r):
